@@ -28,6 +28,8 @@ func genTxnLog(rng *rand.Rand, base int64, n int) ([]sarama.VRec, []sarama.VSimA
 	var log []sarama.VRec
 	var aborted []sarama.VSimAborted
 	npid := 1 + rng.Intn(4)
+	// producer ids start at 0 on a fresh cluster; large ones occur too
+	pidBase := []int64{0, 0, 9000, 1 << 40}[rng.Intn(4)]
 	open := map[int64]int64{} // pid -> first offset
 	seqs := map[int64]int32{}
 	lastWasAbort := map[int64]bool{}
@@ -38,7 +40,7 @@ func genTxnLog(rng *rand.Rand, base int64, n int) ([]sarama.VRec, []sarama.VSimA
 			r := sarama.VRec{PID: -1, Epoch: -1, Seq: -1, TsMs: 1600000000000 + int64(len(log)), Key: []byte(fmt.Sprintf("n%d", len(log))), Value: []byte(fmt.Sprintf("plain-%d", len(log)))}
 			log = append(log, r)
 		case 3, 4, 5, 6, 7: // transactional data
-			pid := int64(9000 + rng.Intn(npid))
+			pid := pidBase + int64(rng.Intn(npid))
 			if _, ok := open[pid]; !ok {
 				open[pid] = off()
 			}
@@ -327,6 +329,9 @@ func consCoreScenario(prop, tier string, idx int) *consScenario {
 		var lg []sarama.VRec
 		var ab []sarama.VSimAborted
 		a, b := int64(9001), int64(9002)
+		if idx%3 == 0 {
+			a, b = 0, 1 // the first producer ids a cluster hands out
+		}
 		add := func(r sarama.VRec) int64 { lg = append(lg, r); return sc.Base + int64(len(lg)-1) }
 		plain := func(t string) sarama.VRec {
 			return sarama.VRec{PID: -1, Epoch: -1, Seq: -1, TsMs: 1600000000000, Key: []byte("p" + t), Value: []byte("plain" + t)}
